@@ -32,6 +32,7 @@ import Sds.Proofs.GenEqIdx
 import Sds.Proofs.GenEqBv
 import Sds.Proofs.GenEqLoop2
 import Sds.Proofs.GenEqConstr
+import Sds.Proofs.GenEqConstr2
 
 namespace Sds.C01
 open Sds Outcome IterProofs
@@ -409,5 +410,24 @@ theorem rank_support_new_as_translated_from_source (m : Mode) (v : RawVec)
     (hwf : v.data.size = (v.len + 63) / 64) (hl : v.len + 512 < U64) :
     Generated.gen_RankSupport_new m v = ok (RankSup.build v) :=
   GenEq.rank_support_new_eq m v hwf hl
+
+/-! **`SelectSupport::new` as translated from the source on this run** (`Generated/FnsConstr2.lean`): the superblock count,
+`log4`, the two `OneIter`s over the parent (each the list of its (rank, position) items: `next` = head / tail, `nth(k)` =
+drop k), the `while sample != None` loop with `nth(SUPERBLOCK_SIZE - 1)`, the long / short decision `limit.1 - start.1 >=
+log4`, the inner `for` loops pushing relative positions (every item / every 64th via `nth(BLOCK_SIZE - 1)`), and the three
+`pack()` calls — equal to the model's `SelSup.build` over the transformed positions of the vector, for `select` and
+`select_zero` alike, on every vector of fewer than 2^58 bits (`len * 64 + 127 < 2^64`).  The select theorems above are
+about `SelSup.build`; with this the code that fills the samples NOW is that function.  That the list IS what the two
+`OneIter`s yield is `one_iterators_as_translated_from_source` (C10) together with the iterator theorems. -/
+theorem select_support_new_as_translated_from_source (m : Mode) (tr : Tr) (v : RawVec) (hlen : v.len * 64 + 127 < U64) :
+    Generated.gen_SelectSupport_new m v.len (positionsT tr v).size (GenEq.enumerate (positionsT tr v)) =
+      ok (SelSup.build v.len (positionsT tr v)) :=
+  GenEq.select_support_new_positions m tr v hlen
+
+/-- … and for ANY ascending positions below `len` (what a generic `Transformation` yields) -/
+theorem select_support_new_as_translated_any_positions (m : Mode) (len : Nat) (pos : Array Nat)
+    (hs : pos.toList.Pairwise (· < ·)) (hlt : ∀ x, x ∈ pos.toList → x < len) (hlen : len * 64 + 127 < U64) :
+    Generated.gen_SelectSupport_new m len pos.size (GenEq.enumerate pos) = ok (SelSup.build len pos) :=
+  GenEq.select_support_new_eq m len pos hs hlt hlen
 
 end Sds.C01
